@@ -27,6 +27,12 @@ z3.RecAddDefinition(HasLetter, [_s, _l, _k], z3.If(_k <= 0, z3.BoolVal(False),
                                                    z3.If(ItemsLabel(_s, _k - 1) == _l, z3.BoolVal(True), HasLetter(_s, _l, _k - 1))))
 
 
+# index of the last item with a given letter among the first k items (with or without a value); -1 if none
+LastIdx = z3.RecFunction("items.last_idx", S, z3.IntSort(), z3.IntSort(), z3.IntSort())
+z3.RecAddDefinition(LastIdx, [_s, _l, _k], z3.If(_k <= 0, z3.IntVal(-1),
+                                                 z3.If(ItemsLabel(_s, _k - 1) == _l, _k - 1, LastIdx(_s, _l, _k - 1))))
+
+
 class Label(Model):
     """A parameter letter (single upper-case character or '')."""
 
